@@ -762,6 +762,129 @@ def rule_B11(ctx):
         ctx.broken("only %d accessor calls" % n)
 
 
+def rule_I1(ctx):
+    ctx.begin("I1", floor=6, what="struct invariants re-established at returns and loop ends")
+    from ..bounds import path_states, nonneg_atoms
+    prog = ctx.prog
+    FIELDS = ("ln_n", "ln_sz", "hist_n", "hist_u", "hist_sz")
+
+    def inv(p, get):
+        f = lambda x: get("%s->%s" % (p, x))
+        return [("ln_n >= 0", Lin(k=0), f("ln_n")),
+                ("ln_n <= ln_sz", f("ln_n"), f("ln_sz")),
+                ("hist_u >= 0", Lin(k=0), f("hist_u")),
+                ("hist_u <= hist_n", f("hist_u"), f("hist_n")),
+                ("hist_n <= hist_sz", f("hist_n"), f("hist_sz"))]
+
+    for fname in ("lbuf_replace", "lbuf_opt", "lbuf_undo", "lbuf_redo", "lbuf_saved"):
+        f = prog.func(fname, file="lbuf.c")
+        cfg = f.cfg
+        p = f.params[0]["name"]
+        writes = [n for n, lv, op, rhs in stores(f.body)
+                  if lv_field(lv) and lv_field(lv)[0] == "lbuf" and lv_field(lv)[1] in FIELDS
+                  and not lv_field(lv)[2] and lv["k"] == "member"]
+        if not writes:
+            ctx.broken("%s no longer writes the guarded fields" % fname)
+            continue
+        init = [b - a for g, a, b in inv(p, lambda k_: Lin({k_: 1}))]
+        if fname == "lbuf_replace":
+            # contract of the splice primitive: n_del lines exist (pos + n_del <= ln_n, pos >= 0);
+            # established by the clamps in lbuf_edit (checked below) and by log replay in
+            # undo/redo (history argument, not decided)
+            pos_, ndel_ = f.params[2]["name"], f.params[3]["name"]
+            init += [Lin({"%s->ln_n" % p: 1}) - Lin({pos_: 1}) - Lin({ndel_: 1}), Lin({pos_: 1}), Lin({ndel_: 1})]
+
+        def header_hyps(subst):
+            return [b - a for g, a, b in inv(p, lambda k_: subst.get(k_) or Lin({k_: 1}))]
+        # obligation points: every return, and the end of every loop body that contains a write
+        targets = [(r, "return") for r in cfg.return_nodes()]
+        if not targets or cfg.exit in [s_ for b in cfg.blocks.values() for s_ in b.succ if not b.ev or
+                                       f.nodes.get(b.ev[-1], {}).get("k") != "return"]:
+            # falls off the end: use the last event of each predecessor of the exit
+            for b in cfg.blocks.values():
+                if cfg.exit in b.succ and b.ev and f.nodes.get(b.ev[-1], {}).get("k") != "return":
+                    n_ = f.nodes.get(b.ev[-1])
+                    if n_ is not None:
+                        targets.append((n_, "end of function"))
+        for h, body in cfg.loops().items():
+            if not any(cfg.pos(w) and cfg.pos(w)[0] in body for w in writes):
+                continue
+            if cfg.blocks[h].ev:
+                n_ = f.nodes.get(cfg.blocks[h].ev[0])
+                if n_ is not None:
+                    targets.append((n_, "loop entry"))
+            latches = [b for b in body if h in cfg.blocks[b].succ]
+            seen_l = set()
+            while latches:
+                b = latches.pop()
+                if b in seen_l:
+                    continue
+                seen_l.add(b)
+                if cfg.blocks[b].ev:
+                    n_ = f.nodes.get(cfg.blocks[b].ev[-1])
+                    if n_ is not None:
+                        targets.append((n_, "end of loop body"))
+                else:
+                    latches += [q for q in cfg.blocks[b].pred if q in body and q != h]
+        for tgt, where in targets:
+            sts = path_states(f, tgt["id"], init_hyps=init, header_hyps=header_hyps,
+                              assume_fields=FIELDS, base_case=(where == "loop entry"))
+            bad = None
+            for subst, hyps, items in sts:
+                # the target event itself may be a store (end of loop body): apply it
+                post = dict(subst)
+                if tgt["k"] == "un" and tgt["op"] in ("post++", "pre++", "post--", "pre--"):
+                    nm = key(tgt["e"]) if tgt["e"]["k"] != "ref" else tgt["e"]["name"]
+                    post[nm] = (post.get(nm) or Lin({nm: 1})) + Lin(k=1 if "++" in tgt["op"] else -1)
+                elif tgt["k"] == "bin" and tgt["op"] in ("=", "+=", "-="):
+                    nm = key(tgt["l"]) if tgt["l"]["k"] != "ref" else tgt["l"]["name"]
+                    r = linearize(strip_casts(tgt["r"]), subst)
+                    if r is not None:
+                        old = post.get(nm) or Lin({nm: 1})
+                        post[nm] = r if tgt["op"] == "=" else (old + r if tgt["op"] == "+=" else old - r)
+                for gname, a, b in inv(p, lambda k_: post.get(k_) or Lin({k_: 1})):
+                    flat = [h_ for h_ in hyps if not isinstance(h_, tuple)]
+                    v = prove_le(a, b, hyps + nonneg_atoms(flat + [a, b]))
+                    if v != PROVEN:
+                        bad = (gname, v, items)
+                        break
+                if bad:
+                    break
+            if bad:
+                desc = ", ".join("%s=%s" % (key(f.nodes[x[1]])[:28], x[2]) for x in bad[2] if x[0] == "br")
+                ctx.violation(fname, "history/line-table invariant at the %s" % where,
+                              "%s is not re-established (%s) on the path: %s" % (bad[0], bad[1], desc),
+                              f.loc(tgt))
+            elif sts:
+                ctx.ok(fname, "0 <= ln_n <= ln_sz and 0 <= hist_u <= hist_n <= hist_sz at the %s "
+                       "(%d paths, loop heads havoced)" % (where, len(sts)), loc=f.loc(tgt))
+    # lbuf_edit establishes the upper half of the contract by its clamps
+    ed = prog.func("lbuf_edit", file="lbuf.c")
+    pe = ed.params[0]["name"]
+    for c in ed.calls("lbuf_replace"):
+        a_pos, a_n = linearize(strip_casts(c["args"][2])), linearize(strip_casts(c["args"][3]))
+        v, hy = prove_index(ed, c, a_pos + a_n, Lin({"%s->ln_n" % pe: 1}))
+        if v == PROVEN:
+            ctx.ok("lbuf_edit", "pos + n_del <= ln_n at the splice (both clamps precede it)", loc=ed.loc(c))
+        else:
+            ctx.violation("lbuf_edit", "splice range clamped to the buffer",
+                          "pos + n_del <= ln_n does not follow from the clamps before lbuf_replace (%s)" % v,
+                          ed.loc(c))
+    # lbuf_replace: strictly one spare slot after the splice (the contract B3 relies on)
+    f = prog.func("lbuf_replace", file="lbuf.c")
+    p = f.params[0]["name"]
+    for n, lv, op, rhs in stores(f.body):
+        if lv_field(lv) and lv_field(lv)[1] == "ln_n" and lv["k"] == "member":
+            v, hy = prove_index(f, n, Lin({"%s->ln_n" % p: 1}) + linearize(strip_casts(rhs)) + Lin(k=1),
+                                Lin({"%s->ln_sz" % p: 1}))
+            if v == PROVEN:
+                ctx.ok("lbuf_replace", "after the splice ln_n < ln_sz (growth loop exit dominates the store)", loc=f.loc(n))
+            else:
+                ctx.violation("lbuf_replace", "line table keeps a spare slot",
+                              "the store `%s` is not dominated by a growth test that leaves ln_n < ln_sz (%s)" % (
+                                  key(n), v), f.loc(n))
+
+
 def rule_P1(ctx):
     ctx.begin("P1", floor=4, what="register text used across calls that may free it")
     prog = ctx.prog
@@ -1297,4 +1420,4 @@ def rule_B3(ctx):
         ctx.broken("only %d allocation writes proven" % n_ok)
 
 
-RULES = {"B9": rule_B9, "B11": rule_B11, "B1": rule_B1, "B2": rule_B2, "B3": rule_B3, "B4": rule_B4, "B5": rule_B5, "B6": rule_B6, "B10": rule_B10, "P1": rule_P1}
+RULES = {"I1": rule_I1, "B9": rule_B9, "B11": rule_B11, "B1": rule_B1, "B2": rule_B2, "B3": rule_B3, "B4": rule_B4, "B5": rule_B5, "B6": rule_B6, "B10": rule_B10, "P1": rule_P1}
